@@ -231,6 +231,14 @@ def tree_strategy(draw, cd: ClassDesc, profile: Profile, depth: int = 0) -> dict
         known = {f.tag for f in cd.fields if f.tag is not None}
         top = max(known, default=-1)
         candidates = [t for t in [top + 1, top + 2] + _UNKNOWN_TAGS if t not in known]
+        if draw(st.integers(0, 11)) == 0:
+            # MANY unknown tagged fields: the count itself then needs a 2-byte varint (KIP-482 sets no limit)
+            n_many = draw(st.sampled_from([126, 127, 128, 129, 255, 256, 257, 300, 383, 384, 512, 600, 1000]))
+            start = max([top + 1] + [0])
+            free = [t for t in range(start, start + n_many + len(known) + 1) if t not in known][:n_many]
+            small = draw(st.binary(max_size=2))
+            tree[UNKNOWN] = [(t, small if i % 3 else b"") for i, t in enumerate(free)]
+            return tree
         n = draw(st.integers(1, 3))
         tags = draw(
             st.lists(
@@ -276,6 +284,8 @@ def tree_labels(cd: ClassDesc, tree: dict, depth: int = 0, out: set | None = Non
     out = set() if out is None else out
     if tree.get(UNKNOWN):
         out.add("unknown_tag")
+        if len(tree[UNKNOWN]) >= 126:
+            out.add("unknown_tags_ge126")
         if depth >= 1:
             out.add("unknown_tag_nested")
     n_tag_entries = len(tree.get(UNKNOWN, ()))
